@@ -455,6 +455,10 @@ def r4_cramer(repo: Repo, rep):
             if isinstance(n, ast.Call) and isinstance(n.func, ast.Attribute) and n.func.attr == "abs" and not n.args:
                 inner = to_rf(n.func.value, atom)
                 return RF.atom(f"|{inner!r}|")
+            # value-changing (non-rational) functions: an opaque value, so the identity fails unless it cancels
+            if isinstance(n, ast.Call) and (attr_chain(n.func) or "").split(".")[-1] in ("clamp", "clamp_min", "clamp_max", "clip", "relu", "maximum", "minimum", "sign", "round", "floor", "ceil", "nan_to_num", "where") and n.args:
+                inner = to_rf(n.args[0], atom)
+                return RF.atom(f"{attr_chain(n.func).split('.')[-1]}[{inner!r}]")
             return None
         for p in paths(fi.node):
             if p.ret is RAISE:
